@@ -70,6 +70,12 @@ func (f *Fosite) NewPushedAuthorizeRequest(ctx context.Context, r *http.Request)
 		return fr, err
 	}
 
+	// The request is processed in the name of the authenticated client only: a "client_id" parameter
+	// naming another client (next to Basic or assertion credentials) must not redirect it.
+	if fr.GetClient().GetID() != client.GetID() {
+		return fr, errorsx.WithStack(ErrInvalidRequest.WithHint("Provided client_id mismatch."))
+	}
+
 	if fr.GetRequestedScopes().Has("openid") && r.Form.Get("redirect_uri") == "" {
 		return fr, errorsx.WithStack(ErrInvalidRequest.WithHint("Query parameter 'redirect_uri' is required when performing an OpenID Connect flow."))
 	}
